@@ -2,8 +2,8 @@
    send_dep_req_recv_dep_res, Target.exchange / send_dep_res_recv_dep_req, and the air
    with a fault script.  Definitions only.
 
-   The model is of the repaired code: the committed repairs b836295, 7efe465, 0d645cb, 2786f8b and
-   fixes/c04-nak-ack-retransmit-chained.diff:
+   The model is of /repo HEAD with the committed repairs b836295, 7efe465, 0d645cb, 2786f8b, d00e425 (C04) and
+   6c4ecdb, 8087fdd, 46c0c37 (C07: empty / truncated frames and PDUs raise ProtocolError):
      - Target.activate: miu = lr - 3 - [did] - [nad]
      - Initiator ATN carries DID/NAD like the other supervisory PDUs
      - Target answers a repeated RTOX request by retransmission unless it is itself waiting for it
@@ -16,8 +16,7 @@
    harness runs conversations with RWT = 1/16 s of virtual time, so that all deadline
    arithmetic is exact); a time-out advances the clock by the time-out value, nothing else
    costs time (the "deadline oracle" is therefore the pair (exchange time-out, script)).
-   The decode functions are crash-explicit (IndexError / ValueError of the Python code are
-   Crash values) and are meant to be reused by C07. *)
+   The decode functions are crash-explicit (checked accessors; with the C07 repairs no input crashes them). *)
 From Coq Require Import ZArith List Bool.
 From NV Require Import Base.Result Base.Bytes.
 Import ListNotations.
@@ -93,12 +92,12 @@ Definition encode_frame (b106 : bool) (body : list Z) : res (list Z) :=
 Definition strip_frame (b106 : bool) (frame : list Z) : res (list Z) :=
   do f1 <- (if b106 then
               match frame with
-              | [] => Crash IndexErr                                  (* frame.pop(0) on an empty frame *)
+              | [] => Err ProtocolError                               (* len(frame) == 0 *)
               | x :: r => if x =? 240 then Ok r else Err ProtocolError
               end
             else Ok frame);
   match f1 with
-  | [] => Crash IndexErr                                              (* frame.pop(0) *)
+  | [] => Err ProtocolError                                           (* len(frame) == 0 *)
   | l :: r => if len f1 =? l then (if len r <? 2 then Err TransmissionError else Ok r)
               else Err ProtocolError
   end.
@@ -121,12 +120,12 @@ Definition dec_dep (b : list Z) : res deppdu :=
 Definition dec_atr_req (d : list Z) : res pdu :=
   match slice d 12 16 with
   | [did; bs; br; pp] => Ok (PAtrReq (slice d 2 12) did bs br pp (if (pp / 2) mod 2 =? 1 then drop 16 d else []))
-  | _ => Crash ValueErr
+  | _ => Err ProtocolError                        (* len(data) < 16 *)
   end.
 Definition dec_atr_res (d : list Z) : res pdu :=
   match slice d 12 17 with
   | [did; bs; br; to; pp] => Ok (PAtrRes (slice d 2 12) did bs br to pp (if (pp / 2) mod 2 =? 1 then drop 17 d else []))
-  | _ => Crash ValueErr
+  | _ => Err ProtocolError                        (* len(data) < 17 *)
   end.
 (* cls( *data[2:] ) with a wrong number of bytes: TypeError -> ProtocolError *)
 Definition dec_psl_req (d : list Z) : res pdu :=
@@ -274,7 +273,7 @@ Definition t_accept (c : tcfg) (t : tgt) (req : deppdu) : tgt * option pdu :=
   | TRtox =>
       if fmt req =? F_RTOX then
         match data req with
-        | [] => t_stop_rtx t (TCrash IndexErr)
+        | [] => t_stop_rtx t TNone                  (* send_timeout_extension returns None *)
         | x :: _ =>
             let t1 := mktgt (t_pni t) (t_pos t) (t_res t) (t_app t) (t_out t) (t_rtx t ++ [TOk [Z.land x 63]]) (t_act t) in
             match t_app t1 with
@@ -507,7 +506,7 @@ Fixpoint rtox_loop (n : nat) (fuel : nat) (ic : icfg) (tc : tcfg) (p : Z) (r : d
   | O => (Err TimeoutError, w)
   | S n' =>
       match data r with
-      | [] => (Crash IndexErr, w)
+      | [] => (Err ProtocolError, w)             (* "NFC-DEP RTOX PDU without RTOX value" *)
       | x :: _ =>
           if negb ((0 <? x) && (x <? 60)) then (Err ProtocolError, w) else
           match srr fuel ic tc p (i_dep ic F_RTOX 0 [x]) (x * 1) timeout w with
